@@ -490,8 +490,24 @@ func CheckMain(args []string) int {
 		if isKnown {
 			continue
 		}
-		filtered++
 		path := WriteReplay(filepath.Join(verifDir(), "replays"), v)
+		if v.Fresh {
+			// not reproducible inside the process that found it: believed only if two fresh processes both show it
+			self, _ := os.Executable()
+			ok := true
+			for i := 0; i < 2 && ok; i++ {
+				c := exec.Command(self, "replay", path)
+				c.Env = append(os.Environ(), "VHARN_QUIET=1")
+				if err := c.Run(); err == nil || c.ProcessState.ExitCode() != 1 {
+					ok = false
+				}
+			}
+			if !ok {
+				engineErrs = append(engineErrs, fmt.Sprintf("violation %q of %s reproduces neither in the worker that found it nor from a fresh process (state-dependent?)", v.Signature, v.Scenario))
+				continue
+			}
+		}
+		filtered++
 		lines = append(lines, fmt.Sprintf("VIOLATION property=%s replay=%s", prop, path))
 		lines = append(lines, fmt.Sprintf("  scenario=%s preemptions=%d signature=%q", v.Scenario, v.Preemptions, v.Signature))
 		code = 1
